@@ -120,13 +120,20 @@ func (s *Server) uploadHandler(w http.ResponseWriter, r *http.Request) error {
 	if err := os.MkdirAll(filepath.Dir(p), 0775); err != nil {
 		return handler.Errorf("mkdir: %s", err)
 	}
-	f, err := os.Create(p)
+	// Write to a temporary file first, so that a failed or interrupted upload
+	// never leaves a partial file visible under the final name.
+	f, err := os.CreateTemp(filepath.Dir(p), ".upload-")
 	if err != nil {
 		return handler.Errorf("create: %s", err)
 	}
 	defer closers.Close(f)
 	if _, err := io.Copy(f, r.Body); err != nil {
+		os.Remove(f.Name())
 		return handler.Errorf("copy: %s", err)
+	}
+	if err := os.Rename(f.Name(), p); err != nil {
+		os.Remove(f.Name())
+		return handler.Errorf("rename: %s", err)
 	}
 	return nil
 }
